@@ -12,8 +12,9 @@ WORK="$VERIF/.work"
 mkdir -p "$WORK/bin" "$WORK/mod"
 
 build() { # $1 = race|norace
-  local out="$WORK/bin/kvcheck" extra=""
-  if [ "$1" = race ]; then out="$WORK/bin/kvcheck-race"; extra="-race"; fi
+  local tag; tag=$(echo "$REPO" | tr '/' '_')
+  local out="$WORK/bin/kvcheck$tag" extra=""
+  if [ "$1" = race ]; then out="$WORK/bin/kvcheck-race$tag"; extra="-race"; fi
   # go.mod copy with the replace pointing at the tree under test
   local modf="$WORK/mod/go.$(echo "$REPO" | tr '/' '_').mod"
   sed "s#=> /repo#=> $REPO#" "$VERIF/harness/go.mod" > "$modf"
@@ -41,7 +42,7 @@ if [ "${1:-}" = "--replay" ]; then
   exec "$BIN" replay -file "$2"
 fi
 if [ "$ID" = C19 ]; then
-  export VERIF_RACE_DIR="$WORK/C19-$TIER.race"
+  export VERIF_RACE_DIR="$WORK/C19-$TIER${VERIF_WORK_SUFFIX:-}.race"
   export GORACE="halt_on_error=0 log_path=$VERIF_RACE_DIR/race"
   rm -rf "$VERIF_RACE_DIR"; mkdir -p "$VERIF_RACE_DIR"
 fi
